@@ -1,10 +1,17 @@
 #![allow(dead_code, unused_imports)]
+mod alloc;
 mod encode;
+mod exercise;
 mod gen;
 mod model;
 mod observe;
 mod props;
 mod runner;
+mod scan;
+mod worker;
+
+#[global_allocator]
+static GLOBAL: alloc::CountingAlloc = alloc::CountingAlloc;
 
 use runner::*;
 
@@ -19,6 +26,9 @@ fn main() {
         usage();
     }
     install_panic_hook();
+    if args[1] == "--worker" {
+        worker::worker_main();
+    }
     let id = args[1].to_uppercase();
     let seed: u64 = std::env::var("VERIF_SEED").ok().and_then(|s| s.trim().parse::<i64>().ok()).map(|v| v as u64).unwrap_or(1);
     if args.len() >= 4 && args[2] == "--replay" {
